@@ -12,7 +12,8 @@ prop("C18",
      rule="Hypothesis-generated (N, NW, k): N 8..4096 (dense 8..128, log-uniform above, edge values; even and odd), "
           "NW a half-integer in {1,1.5,..,8} or a drawn non-half-integer float in [1,8], always NW < N/2 by "
           "construction, NW passed as int or float, k in 1..floor(2NW), k = floor(2NW), or the default (k=None); plus an "
-          "enumerated sweep of every N (8..48 quick, 8..512 thorough) x NW in {1,2.5,4,8}.  Non-trivial: k >= 2.  "
+          "enumerated sweep of every N (8..48 quick, 8..512 thorough) x NW in {1,2.5,4,8}; C18.sign additionally draws one "
+          "case in four from N 1500..4096 x NW in {6,7,7.5,7.75,8} (tiny first samples).  Non-trivial: k >= 2.  "
           "Distinct = SHA-1 of the case descriptor.",
      assumptions=["trusted base: scipy.linalg.eigh_tridiagonal on the commuting tridiagonal matrix (own formulation in "
                   "this module, agrees with scipy.signal.windows.dpss to 2e-15), numpy dense products / eigvalsh of the sinc kernel",
@@ -23,7 +24,7 @@ prop("C18",
                   "default k is round(2NW): it is only exercised where round(2NW) <= 2NW (the statement requires k <= 2NW); "
                   "otherwise the case falls back to the explicit k = floor(2NW)",
                   "'starting with a positive lobe' is read as: the first entry whose magnitude exceeds 1e-6 of the "
-                  "taper's maximum is positive (for NW=8 the very first sample is ~1e-9 of the maximum) and the first sample is not negative",
+                  "taper's maximum is positive (for NW=8 and N>2000 the very first samples are ~1e-10, below the ~5e-9 absolute accuracy of the routine, so their own sign is not asserted)",
                   "a dense-kernel eigh is NOT used as eigenvector reference (leading eigenvalues cluster at 1); dense "
                   "kernel only for Rayleigh quotients, residuals (N<=512) and eigenvalues (N<=256)",
                   "sizes above N=4096 and NW above 8 are not generated"],
@@ -106,7 +107,7 @@ def _call(ctx, case):
     N, NW, k = case["N"], case["NW"], case["k"]
     keff = k if k is not None else int(max(min(round(2 * NW), N), 1))
     out = spectrum.dpss(N, NW) if k is None else spectrum.dpss(N, NW, k)
-    ctx.check(len(out) == 2, "dpss returned %d items" % len(out))
+    ctx.check(len(out) == 2, "dpss returned %d items" % len(out), sig={"clause": "shape"})
     v, lam = np.asarray(out[0]), np.asarray(out[1])
     half = (2 * float(NW)) == int(2 * float(NW))
     ctx.cls("N even" if N % 2 == 0 else "N odd",
@@ -116,10 +117,12 @@ def _call(ctx, case):
             "k default" if k is None else ("k=floor(2NW)" if keff == int(math.floor(2 * NW)) else "k<floor(2NW)"),
             "k=1" if keff == 1 else ("k 2-4" if keff <= 4 else "k>=5"))
     ctx.nontrivial(keff >= 2)
-    ctx.check(v.shape == (N, keff), "dpss(%d, %r, %r) tapers have shape %s, expected %s" % (N, NW, k, v.shape, (N, keff)))
-    ctx.check(lam.shape == (keff,), "dpss(%d, %r, %r) returned %s concentration ratios, expected %d" % (N, NW, k, lam.shape, keff))
+    ctx.check(v.shape == (N, keff), "dpss(%d, %r, %r) tapers have shape %s, expected %s" % (N, NW, k, v.shape, (N, keff)),
+              sig={"clause": "shape"})
+    ctx.check(lam.shape == (keff,), "dpss(%d, %r, %r) returned %s concentration ratios, expected %d" % (N, NW, k, lam.shape, keff),
+              sig={"clause": "shape"})
     ctx.check(np.isrealobj(v) and np.isrealobj(lam) and np.all(np.isfinite(v)) and np.all(np.isfinite(lam)),
-              "dpss(%d, %r, %r) returned non-real or non-finite values" % (N, NW, k))
+              "dpss(%d, %r, %r) returned non-real or non-finite values" % (N, NW, k), sig={"clause": "finite"})
     return v, lam, N, NW, keff
 
 
@@ -127,18 +130,21 @@ def _call(ctx, case):
 def _orthonormal(ctx, v, lam, N, NW, k):
     G = v.T.dot(v)
     err = float(np.max(np.abs(G - np.eye(k))))
-    ctx.check(err <= 1e-6, "columns not orthonormal: max|V^T V - I| = %.3g (N=%d NW=%r k=%d)" % (err, N, NW, k))
+    ctx.check(err <= 1e-6, "columns not orthonormal: max|V^T V - I| = %.3g (N=%d NW=%r k=%d)" % (err, N, NW, k),
+              sig={"clause": "orthonormal"})
 
 
 def _ratios(ctx, v, lam, N, NW, k):
     ctx.check(np.all(lam > 0) and np.all(lam <= 1 + 1e-9),
-              "concentration ratios outside (0,1]: %s (N=%d NW=%r)" % (lam.tolist(), N, NW))
+              "concentration ratios outside (0,1]: %s (N=%d NW=%r)" % (lam.tolist(), N, NW), sig={"clause": "ratio_range"})
     if k > 1:
         ctx.check(float(np.max(np.diff(lam))) <= 1e-9,
-                  "concentration ratios not non-increasing: %s (N=%d NW=%r)" % (lam.tolist(), N, NW))
+                  "concentration ratios not non-increasing: %s (N=%d NW=%r)" % (lam.tolist(), N, NW),
+                  sig={"clause": "ratio_order"})
     A = ref.sinc_kernel(N, NW) if N <= 512 else None
     frac = np.array([_energy_fraction(v[:, i], N, NW, A) for i in range(k)])
-    ctx.close(lam, frac, "ratio vs energy fraction inside |f|<=NW/N (N=%d NW=%r)" % (N, NW), rtol=0, atol=1e-8)
+    ctx.close(lam, frac, "ratio vs energy fraction inside |f|<=NW/N (N=%d NW=%r)" % (N, NW), rtol=0, atol=1e-8,
+              sig={"clause": "energy_fraction"})
     if N <= 192:
         # literal frequency-domain definition: midpoint rule for |V(f)|^2 on a grid of 64N points with a
         # first-order correction for the partial cell at the band edge (observed error 5e-5)
@@ -150,7 +156,7 @@ def _ratios(ctx, v, lam, N, NW, k):
         num = V[:jm + 1].sum(axis=0) + V[M - jm:].sum(axis=0)
         num = num + 2 * (V[jm] + t * (V[jm + 1] - V[jm])) * (t - 0.5)
         ctx.close(lam, num / V.sum(axis=0), "ratio vs integrated |V(f)|^2 on a 64N grid (N=%d NW=%r)" % (N, NW),
-                  rtol=0, atol=1e-3)
+                  rtol=0, atol=1e-3, sig={"clause": "energy_fraction_grid"})
 
 
 def _eigvec(ctx, v, lam, N, NW, k):
@@ -158,18 +164,20 @@ def _eigvec(ctx, v, lam, N, NW, k):
     err = np.minimum(np.max(np.abs(v - r), axis=0), np.max(np.abs(v + r), axis=0))   # up to sign (C18.sign has the convention)
     i = int(np.argmax(err))
     ctx.check(err[i] <= 1e-5,
-              "taper %d differs from the reference eigenvector (either sign) by %.3g (N=%d NW=%r k=%d)" % (i, err[i], N, NW, k))
+              "taper %d differs from the reference eigenvector (either sign) by %.3g (N=%d NW=%r k=%d)" % (i, err[i], N, NW, k),
+              sig={"clause": "eigenvector"})
     A = ref.sinc_kernel(N, NW) if N <= 512 else None
     lam_ref = np.array([_energy_fraction(r[:, j], N, NW, A) for j in range(k)])
-    ctx.close(lam, lam_ref, "ratios vs eigenvalues of the reference tapers (N=%d NW=%r)" % (N, NW), rtol=0, atol=1e-6)
+    ctx.close(lam, lam_ref, "ratios vs eigenvalues of the reference tapers (N=%d NW=%r)" % (N, NW), rtol=0, atol=1e-6,
+              sig={"clause": "eigenvalue_ref"})
     if A is not None:
         res = float(np.max(np.abs(A.dot(v) - v * lam[None, :])))
         ctx.check(res <= 1e-5, "columns are not eigenvectors of the sinc kernel: max|A v - lambda v| = %.3g (N=%d NW=%r k=%d)"
-                  % (res, N, NW, k))
+                  % (res, N, NW, k), sig={"clause": "kernel_residual"})
         if N <= 256:
             top = np.linalg.eigvalsh(A)[::-1][:k]
             ctx.close(lam, top, "ratios vs the k largest eigenvalues of the dense sinc kernel (N=%d NW=%r)" % (N, NW),
-                      rtol=0, atol=1e-8)
+                      rtol=0, atol=1e-8, sig={"clause": "eigenvalue_dense"})
 
 
 def _symmetry(ctx, v, lam, N, NW, k):
@@ -177,10 +185,12 @@ def _symmetry(ctx, v, lam, N, NW, k):
         col = v[:, i]
         if i % 2 == 0:
             d = float(np.max(np.abs(col - col[::-1])))
-            ctx.check(d <= 1e-6, "even-index taper %d not symmetric: %.3g (N=%d NW=%r)" % (i, d, N, NW))
+            ctx.check(d <= 1e-6, "even-index taper %d not symmetric: %.3g (N=%d NW=%r)" % (i, d, N, NW),
+                      sig={"clause": "symmetric"})
         else:
             d = float(np.max(np.abs(col + col[::-1])))
-            ctx.check(d <= 1e-6, "odd-index taper %d not antisymmetric: %.3g (N=%d NW=%r)" % (i, d, N, NW))
+            ctx.check(d <= 1e-6, "odd-index taper %d not antisymmetric: %.3g (N=%d NW=%r)" % (i, d, N, NW),
+                      sig={"clause": "antisymmetric"})
 
 
 def _sign(ctx, v, lam, N, NW, k):
@@ -194,7 +204,7 @@ def _sign(ctx, v, lam, N, NW, k):
             tiny = abs(r[0, i]) < 1e-8
             if tiny:
                 ctx.cls("odd taper with true first sample < 1e-8")
-            ctx.check(_first_lobe_sign(col) > 0 and col[0] >= 0,
+            ctx.check(_first_lobe_sign(col) > 0,
                       "odd-index taper %d starts with a negative lobe: first samples %s, value at N//4 %.3g; reference "
                       "first sample %.3g (N=%d NW=%r k=%d)"
                       % (i, np.array2string(col[:3], precision=3), col[N // 4], r[0, i], N, NW, k),
@@ -269,7 +279,7 @@ def c18_default(ctx, case):
     v, lam, N, NW, k = _call(ctx, case)
     v2, lam2 = spectrum.dpss(N, NW, k)
     ctx.check(np.array_equal(v, np.asarray(v2)) and np.array_equal(lam, np.asarray(lam2)),
-              "dpss(%d, %r) differs from dpss(%d, %r, %d)" % (N, NW, N, NW, k))
+              "dpss(%d, %r) differs from dpss(%d, %r, %d)" % (N, NW, N, NW, k), sig={"clause": "default_k"})
     ctx.check(k <= 2 * NW, "default k=%d exceeds 2NW=%r" % (k, 2 * NW))
     _orthonormal(ctx, v, lam, N, NW, k)
 
